@@ -85,8 +85,8 @@ def run_pair(case):
                         choices += [["c2s", ci]] * 3
                     if c.conn.s2c:
                         choices += [["s2c", ci]] * 3
-                    if case["drops"] and rng.random() < 0.03:
-                        choices.append(["drop", ci])
+                    if case["drops"] and (rng.random() < 0.03 or (len(c.conn.c2s) >= 2 and rng.random() < 0.4)):
+                        choices += [["drop", ci]] * 3
                     if not fifo and len(W.msg_frames(ci)) >= 2:
                         choices.append(["swapmsg", ci, rng.randrange(5), rng.randrange(5)])
                     if not fifo and W.msg_frames(ci) and rng.random() < 0.2:
@@ -137,8 +137,10 @@ def run_pair(case):
                 pending.discard(n.rstrip("!"))
             if pending:
                 viol.append(("get-after-closed-hangs", f"get_* after closed never fired: {sorted(pending)}"))
-        viol += check_events(a.events, "delegated", fifo and not case["drops"])
-        viol += check_events([(n, v) for n, v in b.events[:n0] if not n.startswith("late-")], "deferred", fifo and not case["drops"])
+        # with an order-preserving server the clause holds across reconnects too: un-echoed messages
+        # are re-submitted in submission order, and the server replays a mailbox in arrival order
+        viol += check_events(a.events, "delegated", fifo)
+        viol += check_events([(n, v) for n, v in b.events[:n0] if not n.startswith("late-")], "deferred", fifo)
         for c in (a, b):
             for ent in c.internal:
                 viol.append(("internal:" + ent[0], f"internal failure {ent}"))
